@@ -146,7 +146,7 @@ func runC14() int {
 		"agreeing_commands":             distinct,
 		"templates":                     len(templates),
 		"hostile_strings":               hostile,
-		"rule":                          "differential: for every command template (all value types) x every argument position x every hostile byte string {a, A, empty, space, 'a b', CRLF, non-UTF-8, quote, backslash, multi-byte} (and other letter cases of the command name), and every writer x reader pair with hostile arguments, from a populated keyspace: the reply and the full keyspace dump of the cluster execution path (HandleCluster -> proposal -> JSON entry -> publishEntries -> apply loop) must equal those of a standalone Manager.Handle fed the same bytes; every writer x reader pair is also committed as ONE batch of two entries from two connections (one publishEntries call)",
+		"rule":                          "differential: for every command template (all value types) x every argument position x every hostile byte string {a, A, empty, space, 'a b', CRLF, non-UTF-8, quote, backslash, multi-byte} (and other letter cases of the command name), and every writer x reader pair with hostile arguments, from a populated keyspace: the reply and the full keyspace dump of the cluster execution path (HandleCluster -> proposal -> JSON entry -> publishEntries -> apply loop) must equal those of a standalone Manager.Handle fed the same bytes; every writer x reader pair is also committed as ONE batch of two entries from two connections (one publishEntries call), and run across a restart: after the writer the node is restarted (fresh Manager, callback table, handler) and the reader arrives while the old log is still to be re-applied (its handler waits while the entries of the previous life pass through the apply loop again)",
 	}
 	return rep.Finish(cov, []string{"consensus is short-circuited (one entry per proposal, in order); Raft carries Entry.Data opaquely (C15/C16)"})
 }
